@@ -60,7 +60,7 @@ func (s *mockSensor) GetMovingAvg() float64 {
 	}
 	return s.avg
 }
-func (s *mockSensor) SetMovingAvg(avg float64)   { s.avg = avg }
+func (s *mockSensor) SetMovingAvg(avg float64) { s.avg = avg }
 
 var cvCounter = 0
 var cvPrefix = ""
@@ -74,6 +74,9 @@ func init() {
 		case "cv.reset":
 			cvCounter++
 			cvPrefix = "c" + strconv.Itoa(cvCounter) + "_"
+			// the daemon's default controller tick: evaluations of one curve come far closer together than that when several
+			// fans (or function curves) share it - a curve's value is a function of the sensor state all the same
+			configuration.CurrentConfig.ControllerAdjustmentTickRate = 200 * time.Millisecond
 			return "ok"
 		case "cv.sensor":
 			s := &mockSensor{id: cvId(a.str("id", "s")), avg: a.f64("avg", 0)}
